@@ -11,6 +11,8 @@ harness asserts as an obligation).
 """
 from __future__ import annotations
 
+from fractions import Fraction
+
 from . import alg
 from .alg import Sx
 
@@ -151,6 +153,9 @@ class World:
         return out
 
 
+CHOICE_ATOL = Fraction(3, 2) * Fraction(1, 10**8)  # numpy: sqrt(finfo(float64).eps) = 1.4901e-8, rounded up
+
+
 class RngStub:
     def __init__(self, world, seed):
         self.world = world
@@ -163,6 +168,15 @@ class RngStub:
         vals = list(vals)
         probs = list(p) if p is not None else [alg.const(1) / len(vals)] * len(vals)
         w.choice_calls.append((vals, probs, size))
+        if p is not None:
+            # documented contract of numpy.random.Generator.choice: the weights must sum to one
+            # within atol = sqrt(eps) ("probabilities do not sum to 1"); the library relies on
+            # this exception (Sampler.sample_N_inputs renormalises in its except branch)
+            tot = 0
+            for q in probs:
+                tot = tot + q
+            if tot - 1 > CHOICE_ATOL or 1 - tot > CHOICE_ATOL:
+                raise ValueError("probabilities do not sum to 1")
         n = 1 if size is None else int(size)
         out = np.empty(n, dtype=object)
         for k in range(n):
